@@ -96,6 +96,11 @@ CHECKS["C02"] = dict(
    text="Generated-input search with a round-trip oracle: generated collections (all component kinds, coordinates with units/labels, colliding labels, styles, metadata, links of five kinds, key joins, subset groups over every buildable selection and region class incl. n-ary or, multi-range, n-d/projected ROI states and pretransforms) are saved with data included and restored; a canonical observation (labels, order, values, world values, linked attributes with values, joins, per-dataset masks, styles, metadata, uuid) must be unchanged, a second trip must be idempotent, and a load failure after a successful save is a violation. One minimal session per selection class (bare and inside not/and/or/multi-or) is enumerated exhaustively.",
    note="Trusted: the observation function in pbt/session.py; each attribute takes part in at most one link (no ambiguous equal-depth routes); save-time exceptions are a permitted loud outcome; include_data=False is covered in C19.",
    ref="DESIGN.md section 4 C02")
+CHECKS["C12"] = dict(
+   technique="exhaustive enumeration of the saver/loader registries and the rename table + property-based testing (Hypothesis) of old protocol versions with a version-pinning serializer",
+   text="Three parts: (1) every registry key is checked for consecutive versions, matching savers/loaders and save-uses-newest, and generated VersionedDict operation sequences are compared with a dict model; (2) for every (type, version) with several registered versions, generated sessions are written in that version's format by a serializer subclass that pins the version and loaded by the stock unserializer, and the observation must agree on every field that version wrote; (3) every rename-table entry must terminate, resolve when it points into glue, and not capture a class this package still defines and writes (the written _type set is measured from a saved session with all four viewers).",
+   note="Trusted: pbt/session.py observation; per-version field table in pbt/props/c12.py; two open findings (histogram/profile layer-artist renames) suppressed by exact signature and reproduced on every run.",
+   ref="DESIGN.md section 4 C12")
 NOT_APPLICABLE = []
 
 def main():
